@@ -156,10 +156,10 @@ def notJoined (c : Nat) (r : Req) : List Delivery × Outcome :=
   | .undecodable ty => ([], if ty < 100 then .connError else .ok)
   | _ => ([], .ok)            -- module messages and unknown types are dropped
 
-def Server.handleReceipt (srv : Server) (c rid : Nat) (receipt hash sig : Bytes) : SRes :=
+def Server.handleReceipt (cfg : Cfg) (srv : Server) (c rid : Nat) (receipt hash sig : Bytes) : SRes :=
   if receipt.length == 0 || hash.length == 0 || sig.length == 0 then
     (srv, [(c, .error rid ecBadRequest)], .connError)
-  else if srv.receipts.length < receiptQueueCap then
+  else if srv.receipts.length < cfg.rcap then
     ({ srv with receipts := srv.receipts ++ [⟨receipt, hash, sig⟩] }, [(c, .receiptResp rid)], .ok)
   else (srv, [(c, .error rid ecTooBusy)], .connError)
 
@@ -168,7 +168,7 @@ def Server.handleReq (cfg : Cfg) (srv : Server) (c : Nat) (r : Req) (hint : Nat)
   match r with
   | .ping rid => (srv, [(c, .pingResp rid)], .ok)
   | .join rid ots target => srv.join cfg c rid ots target hint
-  | .receipt rid rc h sg => srv.handleReceipt c rid rc h sg
+  | .receipt rid rc h sg => srv.handleReceipt cfg c rid rc h sg
   | r =>
     match srv.locate c with
     | none => let (ds, o) := notJoined c r; (srv, ds, o)
